@@ -36,6 +36,8 @@ def lift_int(x):
         return z3.IntVal(int(x))
     if isinstance(x, int):
         return z3.IntVal(x)
+    if isinstance(x, z3.ArithRef):
+        return x
     raise NotEncodable(f"int from {type(x)}")
 
 
@@ -223,21 +225,47 @@ class SStr:
 
 
 class TStr:
-    """string built from slices of ONE symbolic base text plus literals.
-    atoms: ('lit', str) | ('sub', lo, hi) with 0<=lo<=hi<=N as z3 ints (already clamped)."""
+    """string built from slices of ONE symbolic base text plus literal pieces.
+
+    atoms: ('lit', str) | ('sub', lo, hi) with 0 <= lo <= hi <= n as z3 ints.
+    Content is never inspected through z3's string theory; tests on content
+    (== literal, endswith, strip) are *facts*: fresh booleans/ints tied to the
+    slice by length axioms (see Facts)."""
 
     __slots__ = ("atoms", "n")
 
     def __init__(self, atoms, n):
-        self.atoms = [a for a in atoms if not (a[0] == "lit" and a[1] == "")]
+        out = []
+        for a in atoms:
+            if a[0] == "lit":
+                if a[1] == "":
+                    continue
+                if out and out[-1][0] == "lit":
+                    out[-1] = ("lit", out[-1][1] + a[1])
+                    continue
+            else:
+                if z3.is_int_value(a[1]) and z3.is_int_value(a[2]) and a[1].as_long() == a[2].as_long():
+                    continue
+                if out and out[-1][0] == "sub" and z3.eq(out[-1][2], a[1]):
+                    out[-1] = ("sub", out[-1][1], a[2])
+                    continue
+            out.append(a)
+        self.atoms = out
         self.n = n
 
     @classmethod
     def base(cls, n):
         return cls([("sub", z3.IntVal(0), n)], n)
 
+    @classmethod
+    def sub(cls, lo, hi, n):
+        return cls([("sub", z3.simplify(lift_int(lo)), z3.simplify(lift_int(hi)))], n)
+
     def __repr__(self):
         return f"TStr({self.atoms})"
+
+    def key(self):
+        return tuple(a[1] if a[0] == "lit" else (str(a[1]), str(a[2])) for a in self.atoms)
 
     def length(self):
         tot = z3.IntVal(0)
@@ -250,6 +278,8 @@ class TStr:
             return TStr(self.atoms + [("lit", o)], self.n)
         if isinstance(o, TStr):
             return TStr(self.atoms + o.atoms, self.n)
+        if isinstance(o, collections.UserString) and isinstance(o.data, (str, TStr)):
+            return self + o.data
         return NotImplemented
 
     def __radd__(self, o):
@@ -260,20 +290,42 @@ class TStr:
     def __bool__(self):
         return bool(mkbool(self.length().e > 0))
 
-    def __hash__(self):
-        raise NotEncodable("hash of symbolic text")
+    __hash__ = None
 
     def __eq__(self, o):
         if o is self:
             return True
-        if isinstance(o, (str, TStr)):
-            raise NotEncodable("content comparison of symbolic text")
+        if isinstance(o, str):
+            if not self.atoms:
+                return o == ""
+            if all(a[0] == "lit" for a in self.atoms):
+                return "".join(a[1] for a in self.atoms) == o
+            return ENGINE.facts.eq_lit(self, o)
+        if isinstance(o, TStr):
+            if self.key() == o.key():
+                return True
+            raise NotEncodable("content comparison of two symbolic texts")
         return False
 
+    def __ne__(self, o):
+        r = self.__eq__(o)
+        return mkbool(z3.Not(r.e)) if isinstance(r, SBool) else (not r)
+
+    def single(self):
+        """(lo, hi) if this is exactly one slice of the base text."""
+        if len(self.atoms) == 1 and self.atoms[0][0] == "sub":
+            return self.atoms[0][1], self.atoms[0][2]
+        return None
+
     def getitem(self, idx):
-        if len(self.atoms) != 1 or self.atoms[0][0] != "sub":
-            raise NotEncodable("slice of composite text")
-        _, lo, hi = self.atoms[0]
+        if not self.atoms:
+            if isinstance(idx, slice):
+                return self
+            raise IndexError("string index out of range")
+        sg = self.single()
+        if sg is None:
+            raise NotEncodable(f"slice of composite text {self}")
+        lo, hi = sg
         n = hi - lo
         if not isinstance(idx, slice) or idx.step is not None:
             raise NotEncodable("text index")
@@ -290,18 +342,119 @@ class TStr:
         b = z3.If(b < a, a, b)
         return TStr([("sub", z3.simplify(lo + a), z3.simplify(lo + b))], self.n)
 
-    def covers_base(self):
-        """z3 condition: atoms are exactly the base text, in order (contiguity)."""
-        c = z3.IntVal(0)
+    # str methods the analysed code uses (content facts, see Facts)
+    def endswith(self, suf):
+        if not isinstance(suf, str):
+            raise NotEncodable("endswith(non-literal)")
+        if self.atoms and self.atoms[-1][0] == "lit" and len(self.atoms[-1][1]) >= len(suf):
+            return self.atoms[-1][1].endswith(suf)
+        if not self.atoms:
+            return "".endswith(suf)
+        return ENGINE.facts.endswith(self, suf)
+
+    def startswith(self, pre):
+        if not isinstance(pre, str):
+            raise NotEncodable("startswith(non-literal)")
+        if self.atoms and self.atoms[0][0] == "lit" and len(self.atoms[0][1]) >= len(pre):
+            return self.atoms[0][1].startswith(pre)
+        if not self.atoms:
+            return "".startswith(pre)
+        return ENGINE.facts.startswith(self, pre)
+
+    def strip(self, chars=None):
+        return ENGINE.facts.strip(self, True, True)
+
+    def lstrip(self, chars=None):
+        return ENGINE.facts.strip(self, True, False)
+
+    def rstrip(self, chars=None):
+        return ENGINE.facts.strip(self, False, True)
+
+    def covers(self, lo, hi):
+        """z3 condition: the atoms are exactly base[lo:hi], in order (contiguity)."""
+        c = lo
         conds = []
         for a in self.atoms:
             if a[0] == "lit":
                 return z3.BoolVal(False)
-            _, lo, hi = a
-            conds.append(z3.Or(hi == lo, lo == c))
-            c = z3.If(hi > lo, hi, c)
-        conds.append(c == self.n)
+            _, alo, ahi = a
+            conds.append(z3.Or(ahi == alo, alo == c))
+            c = z3.If(ahi > alo, ahi, c)
+        conds.append(c == hi)
         return z3.And(*conds)
+
+    def covers_base(self):
+        return self.covers(z3.IntVal(0), self.n)
+
+    def inside(self, lo, hi):
+        """z3 condition: every non-empty slice atom lies within [lo, hi]."""
+        conds = []
+        for a in self.atoms:
+            if a[0] == "sub":
+                conds.append(z3.Or(a[1] == a[2], z3.And(lo <= a[1], a[2] <= hi)))
+        return z3.And(*conds) if conds else z3.BoolVal(True)
+
+
+class Facts:
+    """content facts about TStr values, as fresh symbols with sound axioms.
+
+    A fact is an *over-approximation*: the solver may pick any truth value that
+    is consistent with the lengths.  Per slice, facts are made mutually
+    consistent for the literal tests that the analysed code performs."""
+
+    def __init__(self, eng):
+        self.eng = eng
+        self.tab = {}
+        self.by_slice = {}
+
+    def _fact(self, t, kind, lit):
+        k = (t.key(), kind, lit)
+        if k in self.tab:
+            return self.tab[k]
+        b = self.eng.fresh_bool(f"fact_{kind}")
+        ln = t.length().e
+        if kind == "eq":
+            self.eng.add(z3.Implies(b, ln == len(lit)))
+        else:
+            self.eng.add(z3.Implies(b, ln >= len(lit)))
+        # consistency with other literal facts on the same slice
+        for (kind2, lit2), b2 in self.by_slice.setdefault(t.key(), {}).items():
+            if kind == "eq" and kind2 == "eq" and lit != lit2:
+                self.eng.add(z3.Not(z3.And(b, b2)))
+            for (ka, la, ba), (kb, lb, bb) in (((kind, lit, b), (kind2, lit2, b2)), ((kind2, lit2, b2), (kind, lit, b))):
+                if ka == "eq" and kb == "ends":
+                    self.eng.add(z3.Implies(ba, bb) if la.endswith(lb) else z3.Not(z3.And(ba, bb)))
+                if ka == "eq" and kb == "starts":
+                    self.eng.add(z3.Implies(ba, bb) if la.startswith(lb) else z3.Not(z3.And(ba, bb)))
+        self.by_slice[t.key()][(kind, lit)] = b
+        self.tab[k] = b
+        return b
+
+    def eq_lit(self, t, lit):
+        return mkbool(self._fact(t, "eq", lit))
+
+    def endswith(self, t, lit):
+        return mkbool(self._fact(t, "ends", lit))
+
+    def startswith(self, t, lit):
+        return mkbool(self._fact(t, "starts", lit))
+
+    def strip(self, t, left=True, right=True):
+        """a slice with 0..len characters removed from the chosen ends."""
+        if not t.atoms:
+            return t
+        sg = t.single()
+        if sg is None:
+            raise NotEncodable(f"strip of composite text {t}")
+        lo, hi = sg
+        k = (t.key(), "strip", (left, right))
+        if k not in self.tab:
+            a = self.eng.fresh_int("stripL") if left else z3.IntVal(0)
+            b = self.eng.fresh_int("stripR") if right else z3.IntVal(0)
+            self.eng.add(a >= 0, b >= 0, a + b <= hi - lo)
+            self.tab[k] = (a, b)
+        a, b = self.tab[k]
+        return TStr([("sub", z3.simplify(lo + a), z3.simplify(hi - b))], t.n)
 
 
 # ---------------------------------------------------------------- engine
@@ -313,8 +466,22 @@ class Decision:
         self.alts = alts
 
 
+class Cut(BaseException):
+    """raised when a prefix-enumeration run reaches its depth limit."""
+
+
 class Engine:
-    def __init__(self, timeout_ms=10000):
+    """Re-execution DFS over the forks of one harness run.
+
+    Every symbolic branch calls choose(); the first time a decision point is
+    reached each alternative is checked for feasibility under the current path
+    condition (z3, mathematical integers), later re-executions replay the
+    recorded choice.  explore() yields one result per feasible path.
+    `forced` pins the first len(forced) decisions (used to split a run over
+    processes); enumerate_prefixes() lists the feasible decision prefixes of a
+    given depth."""
+
+    def __init__(self, timeout_ms=10000, seed=0):
         self.decisions = []
         self.pos = 0
         self.solver = None
@@ -325,9 +492,29 @@ class Engine:
         self.solver_time = 0.0
         self.timeout_ms = timeout_ms
         self.unknowns = 0
+        self.forced = ()
+        self.max_depth = None
+        self.seed = seed
+        self.ctr = 0
+        self.n_infeasible = 0
+
+    # -- fresh symbols: deterministic names per path position
+    def fresh_int(self, name):
+        self.ctr += 1
+        return z3.Int(f"{name}!{self.ctr}")
+
+    def fresh_bool(self, name):
+        self.ctr += 1
+        return z3.Bool(f"{name}!{self.ctr}")
 
     def assume(self, e):
         self.base.append(e)
+
+    def add(self, *es):
+        """add constraints to the current path (not a fork)."""
+        for e in es:
+            self.solver.add(e)
+            self.pc.append(e)
 
     def _check(self, *extra):
         t0 = time.time()
@@ -338,12 +525,21 @@ class Engine:
 
     def choose(self, conds):
         """n-way fork: conds are z3 bools; returns index of the chosen one."""
-        if self.pos < len(self.decisions):
-            d = self.decisions[self.pos]
+        if self.pos < len(self.forced):
+            c = self.forced[self.pos]
+            self.pos += 1
+            self.solver.add(conds[c])
+            self.pc.append(conds[c])
+            return c
+        k = self.pos - len(self.forced)
+        if k < len(self.decisions):
+            d = self.decisions[k]
             self.pos += 1
             self.solver.add(conds[d.choice])
             self.pc.append(conds[d.choice])
             return d.choice
+        if self.max_depth is not None and self.pos >= self.max_depth:
+            raise Cut()
         feas = []
         for i, c in enumerate(conds):
             r = self._check(c)
@@ -376,20 +572,30 @@ class Engine:
             raise BoundExceeded(f"concretize {e}")
         return vals[i]
 
-    def explore(self, run):
+    def _new_solver(self):
+        self.solver = z3.Solver()
+        self.solver.set("timeout", self.timeout_ms)
+        self.solver.set("random_seed", self.seed % (2 ** 31))
+        for b in self.base:
+            self.solver.add(b)
+
+    def explore(self, run, forced=()):
+        """yield ("ok", value) / ("exc", exception) once per feasible path."""
         self.decisions = []
+        self.forced = tuple(forced)
         while True:
             self.pos = 0
             self.pc = []
-            self.solver = z3.Solver()
-            self.solver.set("timeout", self.timeout_ms)
-            for b in self.base:
-                self.solver.add(b)
+            self.ctr = 0
+            self._new_solver()
+            self.facts = Facts(self)
+            self.path_state = {}
             try:
                 out = ("ok", run())
             except Infeasible:
                 out = None
-            except (NotEncodable, BoundExceeded):
+                self.n_infeasible += 1
+            except (NotEncodable, BoundExceeded, Cut):
                 raise
             except Exception as ex:  # exception raised by analysed code
                 out = ("exc", ex)
@@ -402,6 +608,49 @@ class Engine:
                 return
             d = self.decisions[-1]
             d.choice = d.alts.pop(0)
+
+    def enumerate_prefixes(self, run, depth):
+        """feasible decision prefixes of length <= depth (shorter ones are
+        complete paths); used to split the exploration over processes."""
+        out = []
+        self.decisions = []
+        self.forced = ()
+        self.max_depth = depth
+        try:
+            while True:
+                self.pos = 0
+                self.pc = []
+                self.ctr = 0
+                self._new_solver()
+                self.facts = Facts(self)
+                self.path_state = {}
+                try:
+                    run()
+                    out.append(tuple(d.choice for d in self.decisions))
+                except Cut:
+                    out.append(tuple(d.choice for d in self.decisions))
+                except Infeasible:
+                    pass
+                except (NotEncodable, BoundExceeded):
+                    raise
+                except Exception:
+                    out.append(tuple(d.choice for d in self.decisions))
+                while self.decisions and not self.decisions[-1].alts:
+                    self.decisions.pop()
+                if not self.decisions:
+                    break
+                d = self.decisions[-1]
+                d.choice = d.alts.pop(0)
+        finally:
+            self.max_depth = None
+        # de-duplicate, keep order
+        seen = set()
+        res = []
+        for p in out:
+            if p not in seen:
+                seen.add(p)
+                res.append(p)
+        return res
 
     def valid(self, prop):
         """is prop valid under the current path condition? returns (verdict, model)."""
@@ -416,7 +665,33 @@ class Engine:
             return "valid", None
         if r == z3.sat:
             return "cex", self.solver.model()
+        self.unknowns += 1
         return "unknown", None
+
+    def path_model(self):
+        r = self._check()
+        if r == z3.sat:
+            return self.solver.model()
+        return None
+
+
+def mval(model, e, default=0):
+    """integer value of z3 term / SInt / python int under a model."""
+    if isinstance(e, SInt):
+        e = e.e
+    if isinstance(e, bool):
+        return int(e)
+    if isinstance(e, int):
+        return e
+    v = model.eval(e, model_completion=True)
+    try:
+        return v.as_long()
+    except Exception:
+        if z3.is_true(v):
+            return 1
+        if z3.is_false(v):
+            return 0
+        return default
 
 
 # ---------------------------------------------------------------- interpreter
@@ -486,7 +761,10 @@ class Interp:
         self.stubs = {}
         self.src_cache = {}
         self.loop_bound = loop_bound
-        self.encoded = set()
+        self.encoded = {}  # qualname -> sha1 of source
+        self.cov = set()  # (qualname, lineno relative to def)
+        self.lines = {}  # qualname -> set of statement linenos
+        self.fn_stack = []
 
     # -- function source handling
     def closure_of(self, f):
@@ -507,7 +785,10 @@ class Interp:
         c.qualname = f"{f.__module__}.{f.__qualname__}"
         c.defcls = self._defining_class(f)
         self.src_cache[key] = c
-        self.encoded.add(c.qualname)
+        import hashlib
+
+        self.encoded[c.qualname] = hashlib.sha1(src.encode()).hexdigest()[:12]
+        self.lines[c.qualname] = {n.lineno for n in ast.walk(node) if isinstance(n, ast.stmt) and n is not node and not (isinstance(n, ast.Expr) and isinstance(n.value, ast.Constant))}
         return c
 
     @staticmethod
@@ -565,6 +846,8 @@ class Interp:
         if isinstance(f, types.BuiltinFunctionType) or isinstance(f, (types.MethodDescriptorType, types.BuiltinMethodType, types.WrapperDescriptorType, types.MethodWrapperType)):
             self_obj = getattr(f, "__self__", None)
             name = getattr(f, "__name__", "")
+            if name == "join" and isinstance(self_obj, str):
+                return m_join(self, self_obj, list(args[0]))
             if is_sym(self_obj) or (isinstance(self_obj, str) and name in STR_METHOD_MODELS and any(deep_sym(a) for a in args)):
                 mm = STR_METHOD_MODELS.get(name)
                 if mm is None:
@@ -648,10 +931,13 @@ class Interp:
             raise TypeError(f"unexpected kwargs {kwargs}")
         if isinstance(node, ast.Lambda):
             return self.ev(node.body, env)
+        self.fn_stack.append(getattr(c, "qualname", None))
         try:
             self.exec_block(node.body, env)
         except _Return as r:
             return r.v
+        finally:
+            self.fn_stack.pop()
         return None
 
     # -- statements
@@ -663,7 +949,17 @@ class Interp:
         m = getattr(self, "s_" + type(s).__name__, None)
         if m is None:
             raise NotEncodable(f"stmt {type(s).__name__}")
+        if self.fn_stack and self.fn_stack[-1]:
+            self.cov.add((self.fn_stack[-1], s.lineno))
         return m(s, env)
+
+    def uncovered(self):
+        out = {}
+        for q, ls in self.lines.items():
+            miss = sorted(l for l in ls if (q, l) not in self.cov)
+            if miss:
+                out[q] = miss
+        return out
 
     def s_Expr(self, s, env):
         self.ev(s.value, env)
@@ -766,6 +1062,7 @@ class Interp:
         kwd = {a.arg: self.ev(d, env) for a, d in zip(s.args.kwonlyargs, s.args.kw_defaults) if d is not None}
         c = Closure(self, s, env.globs, env, s.name, defaults, kwd)
         c.defcls = None
+        c.qualname = (self.fn_stack[-1] or "?") + ".<locals>." + s.name if self.fn_stack else s.name
         env.vars[s.name] = c
 
     def s_Try(self, s, env):
@@ -1003,8 +1300,6 @@ class Interp:
             if isinstance(a, (str, SStr)) and isinstance(b, (str, SStr)):
                 return mkbool(lift_str(a) == lift_str(b))
             return False
-        if isinstance(a, collections.UserString) and is_sym(a.data):
-            return self.eq(a.data, b)
         return a == b
 
     def contains(self, container, item):
